@@ -525,8 +525,8 @@ def shard(arg):
                     why = f"no log record naming the value (records: {handler.records!r})"
             if why:
                 sop = _SIG_OP.get(op, op)
-                tail = "" if order is None else f"/{order}-{wk}"
-                p.violation(f"C21/{sop}/{tn}{tail}", {
+                tail = "" if order is None else f"/{order}"
+                p.violation(f"C21/{sop}{tail}/{tn}", {
                     "msg": f"direct {tn} origin={origin} obtained={how} op={op} order={order} other={wk}: {why}",
                     "route": "direct", "script": SCRIPT_DIRECT % ((base, logging_flag, origin, how, op, order, wk),)})
     # ---- template route, sync and async
@@ -546,8 +546,8 @@ def shard(arg):
             why = judge_text(expected_text(spec, base, origin), out, origin)
             if why:
                 sop = "async-iteration" if (op == "iter" and is_async) else op
-                tail = "" if order is None else f"/{order}-{wk}"
-                p.violation(f"C21/{sop}/{tn}{tail}", {
+                tail = "" if order is None else f"/{order}"
+                p.violation(f"C21/{sop}{tail}/{tn}", {
                     "msg": f"template {'async' if is_async else 'sync'} {tn} origin={origin} {src!r}: {why}",
                     "route": "template-async" if is_async else "template",
                     "script": SCRIPT_TMPL % ((base, logging_flag, origin, src, is_async),)})
@@ -581,14 +581,23 @@ def run(ctx: core.Ctx):
         "int/float filters are not used (their own contract is C23); int()/float()/complex() are exercised directly",
     ]
     ctx.pmap(shard, [(ti, origin) for ti in range(len(TYPES)) for origin in ORIGINS])
-    # one defect, one signature: a deviation that shows on a base type and on its logging variant keeps the base signature
+    # one defect, one signature: a deviation that shows on a base type and on its logging variant keeps the base
+    # signature; one that shows on all four base types is filed under "all-types"
     sigs = {s for s, _ in ctx.viol}
     merged = []
     for s, d in ctx.viol:
-        if "+logging" in s and s.replace("+logging", "") in sigs:
-            s = s.replace("+logging", "")
+        if s.endswith("+logging") and s[:-len("+logging")] in sigs:
+            s = s[:-len("+logging")]
         merged.append((s, d))
-    ctx.viol[:] = merged
+    sigs = {s for s, _ in merged}
+    final = []
+    for s, d in merged:
+        stem, _, t = s.rpartition("/")
+        if t in BASES and all(stem + "/" + b in sigs for b in BASES):
+            s = stem + "/all-types"
+        final.append((s, d))
+    final.sort(key=lambda sd: (len(sd[1].get("msg", "")), sd[1].get("msg", "")))
+    ctx.viol[:] = final
     ctx.cov["bounds"] = {"types": [tname(*t) for t in TYPES], "origins": ORIGINS, "other_operands": WKINDS,
                          "direct_cells_per_object": len(list(direct_cells())),
                          "template_cells_per_environment": len(list(template_cells())),
